@@ -17,7 +17,7 @@ from contracts.common import *  # noqa
 from contracts import common, insn, c06, c05, c13, c15, c14, deferred_c, compiler_c, symbols_c, meta_c, cli_c
 from contracts.insn import *  # noqa
 from contracts.c06 import unit_fill, unit_data, unit_ascii, unit_word_list, unit_get_as_int  # noqa
-from contracts.c05 import unit_infix_body, unit_prefix_body, unit_number  # noqa
+from contracts.c05 import unit_infix_body, unit_prefix_body, unit_number, unit_pseudo_resolve  # noqa
 from contracts.c13 import unit_bin  # noqa
 from contracts.c14 import unit_encode, unit_charliteral  # noqa
 from contracts.c15 import unit_rad50  # noqa
@@ -332,6 +332,9 @@ def units(tier):
         us.append(("operator[%s]" % n, "unit_infix_body", dict(name=n)))
     for n in c05.PREFIX_NAMES:
         us.append(("operator[%s]" % n, "unit_prefix_body", dict(name=n)))
+    for n in c05.PSEUDO_NAMES:
+        for lz in (itertools.product((False, True), repeat=2) if n == "call" else [(False,), (True,)]):
+            us.append(("resolve[%s,%s]" % (n, lz), "unit_pseudo_resolve", dict(name=n, lz=tuple(lz))))
     for mode in ("value", "not_ready", "RecoverableError", "DeferredCycle"):
         us.append(("construct[%s]" % mode, "unit_construct", dict(mode=mode, sized=True)))
     for st_ in (False, True):
@@ -377,6 +380,8 @@ def replay(o, tree):
     cfg = o.get("cfg") or {}
     k = cfg.get("kind")
     src = None
+    if k == "pseudo":
+        return c05.replay(o, tree)
     if k == "mutation":
         bad = []
         for sig, (cnt, s_) in list(cfg.get("new", {}).items())[:12]:
@@ -385,8 +390,9 @@ def replay(o, tree):
                 bad.append((sig, s_, out))
         return dict(jobs=[{"kind": "asm", "sources": [b[1] + "\n"]} for b in bad[:4]], expected="ok or fail (a result or a reported error)", observed=bad, reproduced=bool(bad))
     if k == "pct":
-        spell = {"(%e)": "(%x)", "@%e": "@%x", "(%e)+": "(%x)+", "@(%e)+": "@(%x)+", "-(%e)": "-(%x)", "@-(%e)": "@-(%x)", "x(%e)": "2(%x)", "@x(%e)": "@2(%x)", "@(%e)": "@(%x)"}[cfg["shape"]]
-        src = "clr %s\nx = 1\n" % spell if cfg.get("reg_lazy") else "clr %s\n" % spell.replace("x", "1")
+        spell = {"(%e)": "(%x)", "@%e": "@%x", "(%e)+": "(%x)+", "@(%e)+": "@(%x)+", "-(%e)": "-(%x)", "@-(%e)": "@-(%x)", "x(%e)": "2(%x)", "@x(%e)": "@2(%x)", "@(%e)": "@(%x)",
+                 "a-b(%e)": "tab-2(%x)", "@a+b(%e)": "@tab+2(%x)", "-a(%e)": "-2(%x)"}[cfg["shape"]]
+        src = "clr %s\nx = 1\ntab = 100\n" % spell if cfg.get("reg_lazy") else "tab = 100\nclr %s\n" % spell.replace("x", "1")
     elif k == "align":
         src = ".align 0\n"
     elif k == "selfref":
